@@ -111,7 +111,7 @@ def corpus_selection(tier):
 
 def budget(tier):
     nc = len(corpus_selection(tier))
-    return nc + (480 if tier == "quick" else 6000)
+    return nc + (1200 if tier == "quick" else 9000)
 
 
 # ----------------------------------------------------------------------------------------------
